@@ -458,6 +458,9 @@ def run(ctx):
     shares = [(workers[w], [h for i, h in enumerate(hs) if i % nw == w]) for w in range(nw)]
     with ThreadPoolExecutor(max_workers=nw) as ex:
         list(ex.map(lambda ws: [run_history(ws[0], h) for h in ws[1]], shares))
+    override_bad = override_changes_under_live_process(ctx, workers[0], rng, 40 if thorough else 10)
+    ctx.obligation("oracle: after the override file was edited / removed under a live process, update_settings() in that process and a process started later "
+                   "read the file as it is now", not override_bad, "; ".join(override_bad)[:700])
     ctx.count("interpreter_spawns", sum(w.spawns for w in workers))
 
     # ---- bookkeeping, python-side checks ---------------------------------------------------------------------------------
@@ -529,6 +532,8 @@ def run(ctx):
                     "last_probe": (h["obs"][-2]["cache"] if h.get("obs") else None)})
 
     # ---- verdict ---------------------------------------------------------------------------------------------------------------
+    if override_bad:
+        ctx.report("oracle:override-file-changed-under-live-process", "settings: " + override_bad[0][:600], {"problems": override_bad[:3]}, True)
     if oracle_bad:
         h, b = min(oracle_bad, key=lambda x: (len(x[0]["ops"]), x[1]["step"]))
         small = shrink(workers[0], h, b["clause"])
@@ -541,11 +546,74 @@ def run(ctx):
         last = small["crashed"]["stderr"].strip().split("\n")[-1] if small.get("crashed") else ""
         ctx.report("later-process-crashes", "settings: after these writes a process started later cannot read the settings back (it crashes on import): %s" % last[:160],
                    {"user_file": small["user"], "initial_store_file": small["store0"], "ops": small["ops"], "crash": small["crashed"]}, True)
-    elif ctx.broken():
+    elif ctx.broken() and not override_bad:
         ctx.report("broken:" + ";".join(ctx.broken()), "proof obligation / correspondence no longer checks: " + "; ".join(ctx.broken()),
                    {"broken": ctx.broken(),
                     "first_disagreement": [{"step": f[1], "ops": f[0]["ops"], "user": f[0]["user"], "store0": f[0]["store0"]} for f in failing[:1]]},
                    found_input=False)
+
+
+def override_changes_under_live_process(ctx, w, rng, n):
+    """the user's override file is edited or removed while a process that has already loaded it lives on: a reload in that process (and a
+    process started later) must see the file AS IT IS NOW.  Outside the Coq model (there the override file is a constant of a history); the
+    expectation is computed directly: reload = (cache updated with the defaults, then the store, then - if _read_user - the file's current content)."""
+    bad = []
+    for _ in range(n):
+        w.clean()
+        keys = ["max_qubits", "max_registers", "conn_retry_time", "recv_timeout", "log_level", "sim_backend", "t1", "noisy_qubits"]
+        def rnd_user():
+            ks = rng.sample(keys, rng.randrange(1, 4))
+            return {k: values_for(k, rng) for k in ks}
+        u1 = rnd_user()
+        u2 = rng.choice([None, rnd_user(), rnd_user()])
+        with open(w.user_file, "w") as f:
+            json.dump(u1, f)
+        pr, d0 = w.spawn()
+        if pr is None:
+            bad.append("spawn crashed: %s" % d0.get("crash"))
+            continue
+        steps = []
+        try:
+            if rng.random() < 0.5:
+                k = rng.choice(keys)
+                v = values_for(k, rng)
+                Worker.command(pr, ["set", k, v])
+                steps.append(["set", k, v])
+            if u2 is None:
+                os.remove(w.user_file)
+            else:
+                with open(w.user_file, "w") as f:
+                    json.dump(u2, f)
+            before = Worker.command(pr, ["dump"]) if False else None
+            d1 = Worker.command(pr, ["reload"])
+            if d1 is None or "crash" in d1:
+                bad.append("reload crashed: %r" % (d1,))
+                continue
+            cache = dict(tuple(x) for x in d1["cache"])
+            default = dict(tuple(x) for x in d1["default"])
+            store = dict(tuple(x) for x in (w.read_store() or []))
+            want = dict(default)
+            want.update(store)
+            if want.get("_read_user") and u2 is not None:
+                want.update(u2)
+            ctx.count("override_file_changed_under_live_process")
+            ctx.case(("override-change", json.dumps(u1, sort_keys=True), json.dumps(u2, sort_keys=True), json.dumps(steps)), nontrivial=True)
+            diff = {k: (cache.get(k), want.get(k)) for k in set(cache) | set(want) if typed(cache.get(k)) != typed(want.get(k))}
+            if diff:
+                bad.append("override file %r was replaced by %r while a process lived; after update_settings() that process reads %r (left: read, right: "
+                           "what defaults + store + the file as it is now give)" % (u1, u2, diff))
+            pd = w.probe()
+            if "crash" not in pd:
+                pc = dict(tuple(x) for x in pd["cache"])
+                diff2 = {k: (pc.get(k), want.get(k)) for k in want if typed(pc.get(k)) != typed(want.get(k))}
+                if diff2:
+                    bad.append("a process started after the override file changed from %r to %r reads %r" % (u1, u2, diff2))
+        finally:
+            try:
+                Worker.command(pr, ["exit"])
+            except Exception:               # noqa: BLE001
+                pr.kill()
+    return bad
 
 
 def shrink(w, h, clause):
